@@ -170,7 +170,7 @@ def check_convert_table(ctx, drv):
             ok, r, msg = G.outcome(api.transfer_model, w.dirs[0], "M", {"cache": True})
             api.pickle = real_pickle
             k = w.spy_log[0] if w.spy_log else "?"
-            verdicts.append("raise" if k.startswith("raised") else k.split(":", 1)[1])
+            verdicts.append("raise" if k.startswith("raised") else k.split(":", 1)[-1])
             excs.append(exc_json(e))
             ctx.case({"exception": label}, nontrivial=True, key=["convert", label])
             ctx.count("convert:%s->%s" % (label, verdicts[-1]))
@@ -179,7 +179,8 @@ def check_convert_table(ctx, drv):
                               expected="recompile or the same exception", observed=r)
         if drv is not None:
             ans = drv.ask({"op": "cache.convert", "excs": excs})
-            if ans.get("verdicts") != verdicts:
+            # converted to an invalid cache, or escaping: the reason text is informative only
+            if [v == "raise" for v in ans.get("verdicts", [])] != [v == "raise" for v in verdicts]:
                 diff = [(EXC_TABLE[i][0], a, b) for i, (a, b) in enumerate(zip(ans.get("verdicts", []), verdicts)) if a != b]
                 ctx.disagreement("convert-table", {"stream": "convert", "classes": [d[0] for d in diff]}, [d[1] for d in diff], [d[2] for d in diff])
     finally:
@@ -330,7 +331,7 @@ class CrashBench:
             raise HarnessError("drv_c21 rejected: %s" % ans)
         msteps = [s for s in ans["steps"][len(pre):] if "kind" in s and not s.get("crashed")]
         mk = [s["kind"] for s in msteps]
-        if mk != kinds:
+        if [G.coarse(x) for x in mk] != [G.coarse(x) for x in kinds]:
             self.ctx.disagreement("crash.decision", case, mk, kinds)
         if any(s.get("stale") for s in msteps):
             self.ctx.disagreement("crash.stale", case, "model: stale result", "impl: correct")
@@ -444,7 +445,7 @@ class CrashBench:
                            "err_default": {"mro": ["UnpicklingError", "PickleError", "Exception"], "deser": False},
                            "ops": w.model_ops})
             msteps = [s["kind"] for s in ans["steps"][start:] if "kind" in s and not s.get("crashed")]
-            if msteps != kinds:
+            if [G.coarse(x) for x in msteps] != [G.coarse(x) for x in kinds]:
                 ctx.disagreement("interrupt.decision", case, msteps, kinds)
         return True
 
